@@ -1,10 +1,13 @@
 #!/bin/sh
-# run_seed.sh <seed-dir-name> <check-id> [tier]: apply a seeded defect to /repo, run the check, undo.
+# run_seed.sh <seed-dir-name> <check-id> [tier]: apply a seeded defect to a SCRATCH copy of /repo
+# (worktree under /tmp/seedrun) and run the check against it via VERIF_REPO. /repo itself is untouched.
 seed=$1; id=$2; tier=${3:-quick}
 cd /verif
-git -C /repo diff --quiet || { echo "/repo is dirty"; exit 2; }
-git -C /repo apply /verif/seeded/$seed/patch.diff || exit 2
-./check $id --tier $tier > /verif/.work/seed_$seed_$id.log 2>&1
+wt=/tmp/seedrun/$seed.$id.$$
+mkdir -p /tmp/seedrun
+git -C /repo worktree add -q --detach $wt HEAD || exit 2
+git -C $wt apply /verif/seeded/$seed/patch.diff || { git -C /repo worktree remove --force $wt; exit 2; }
+VERIF_REPO=$wt ./check $id --tier $tier > /verif/.work/seed_${seed}_$id.log 2>&1
 rc=$?
-git -C /repo checkout -- .
-echo "$seed on $id ($tier): exit=$rc $(grep -E '^(VIOLATION|KNOWN)' /verif/.work/seed_$seed_$id.log | head -2 | tr '\n' ' ')"
+git -C /repo worktree remove --force $wt
+echo "$seed on $id ($tier): exit=$rc $(grep -E '^(VIOLATION|KNOWN)' /verif/.work/seed_${seed}_$id.log | head -2 | tr '\n' ' ')"
